@@ -1,5 +1,6 @@
 import XsVerif.Driver.Util
 import XsVerif.Model.Defuse
+import XsVerif.Model.Prolog
 open Lean XsVerif.Driver XsVerif.Defuse
 
 namespace XsVerif.Driver.C13
@@ -55,6 +56,168 @@ def outJson : Out → Json
   | .at p => Json.mkObj [("at", p)]
   | .oserror => Json.str "oserror"
 
+/-! ### prolog grammar: JSON syntax tree → `Prolog` -/
+
+open XsVerif.Prolog in
+def toBytes (s : String) : Bytes := s.toUTF8.toList.map (·.toNat)
+
+def hexDigit (n : Nat) : Char := if n < 10 then Char.ofNat (48 + n) else Char.ofNat (87 + n)
+
+def toHex (b : List Nat) : String :=
+  b.foldl (fun (acc : String) x => (acc.push (hexDigit (x / 16))).push (hexDigit (x % 16))) ""
+
+def hexVal (c : Char) : Except String Nat :=
+  let n := c.toNat
+  if 48 ≤ n ∧ n ≤ 57 then pure (n - 48)
+  else if 97 ≤ n ∧ n ≤ 102 then pure (n - 87)
+  else throw "hex"
+
+def fromHexAux : List Char → List Nat → Except String (List Nat)
+  | [], acc => pure acc.reverse
+  | [_], _ => throw "hex: odd length"
+  | a :: b :: rest, acc => do
+    let x ← hexVal a
+    let y ← hexVal b
+    fromHexAux rest ((x * 16 + y) :: acc)
+
+def fromHex (s : String) : Except String (List Nat) := fromHexAux s.toList []
+
+def bytesToString (b : List Nat) : String := String.ofList (b.map Char.ofNat)
+
+namespace P
+open XsVerif.Prolog
+
+def arr (j : Json) : Except String (Array Json) := j.getArr?
+def strAt (a : Array Json) (i : Nat) : Except String String :=
+  match a[i]? with
+  | some v => v.getStr?
+  | none => throw s!"missing item {i}"
+def at' (a : Array Json) (i : Nat) : Except String Json :=
+  match a[i]? with
+  | some v => pure v
+  | none => throw s!"missing item {i}"
+
+def lit (j : Json) : Except String Lit := do
+  let a ← arr j
+  let q ← match (← strAt a 0) with
+    | "dq" => pure Quote.dq
+    | "sq" => pure Quote.sq
+    | _ => throw "quote"
+  pure { q := q, body := toBytes (← strAt a 1) }
+
+def extId (j : Json) : Except String ExtId := do
+  let a ← arr j
+  match (← strAt a 0) with
+  | "system" => pure (.system (← lit (← at' a 1)))
+  | "public" => pure (.pub (← lit (← at' a 1)) (← lit (← at' a 2)))
+  | _ => throw "extid"
+
+def entDef (j : Json) : Except String EntDef := do
+  let a ← arr j
+  match (← strAt a 0) with
+  | "value" => pure (.value (← lit (← at' a 1)))
+  | "ext" => pure (.ext (← extId (← at' a 1)))
+  | "ndata" => pure (.ndata (← extId (← at' a 1)) (toBytes (← strAt a 2)))
+  | _ => throw "entdef"
+
+def attDefault (j : Json) : Except String AttDefault := do
+  let a ← arr j
+  match (← strAt a 0) with
+  | "kw" => pure (.kw (toBytes (← strAt a 1)))
+  | "lit" => pure (.lit (← lit (← at' a 1)))
+  | "fixed" => pure (.fixed (← lit (← at' a 1)))
+  | _ => throw "attdefault"
+
+def attDef (j : Json) : Except String AttDef := do
+  let a ← arr j
+  pure { name := toBytes (← strAt a 0), type := toBytes (← strAt a 1), dflt := ← attDefault (← at' a 2) }
+
+def decl (j : Json) : Except String Decl := do
+  let a ← arr j
+  match (← strAt a 0) with
+  | "entity" => pure (.entity (← (← at' a 1).getBool?) (toBytes (← strAt a 2)) (← entDef (← at' a 3)))
+  | "notation" => pure (.notationDecl (toBytes (← strAt a 1)) (← extId (← at' a 2)))
+  | "element" => pure (.element (toBytes (← strAt a 1)) (toBytes (← strAt a 2)))
+  | "attlist" => pure (.attlist (toBytes (← strAt a 1)) (← (← arr (← at' a 2)).toList.mapM attDef))
+  | "comment" => pure (.comment (toBytes (← strAt a 1)))
+  | "pi" => pure (.pi (toBytes (← strAt a 1)) (toBytes (← strAt a 2)))
+  | "peref" => pure (.peRef (toBytes (← strAt a 1)))
+  | "space" => pure (.space (toBytes (← strAt a 1)))
+  | _ => throw "decl"
+
+def misc (j : Json) : Except String Misc := do
+  let a ← arr j
+  match (← strAt a 0) with
+  | "comment" => pure (.comment (toBytes (← strAt a 1)))
+  | "pi" => pure (.pi (toBytes (← strAt a 1)) (toBytes (← strAt a 2)))
+  | "space" => pure (.space (toBytes (← strAt a 1)))
+  | _ => throw "misc"
+
+def optional {α : Type} (j : Json) (k : String) (f : Json → Except String α) : Except String (Option α) :=
+  match j.getObjVal? k with
+  | .ok .null => pure none
+  | .ok v => do pure (some (← f v))
+  | .error _ => pure none
+
+def xmlDecl (j : Json) : Except String XmlDecl := do
+  pure { encoding := ← optional j "encoding" (fun v => do pure (toBytes (← v.getStr?))),
+         standalone := ← optional j "standalone" (fun v => v.getBool?) }
+
+def doctype (j : Json) : Except String Doctype := do
+  pure { name := toBytes (← getStr j "name"),
+         ext := ← optional j "ext" extId,
+         subset := ← optional j "subset" (fun v => do (← arr v).toList.mapM decl) }
+
+def prolog (j : Json) : Except String Prolog := do
+  pure { bom := ← getBool j "bom",
+         xmlDecl := ← optional j "xmldecl" xmlDecl,
+         misc1 := ← (← getArr j "misc1").toList.mapM misc,
+         doctype := ← optional j "doctype" doctype,
+         misc2 := ← (← getArr j "misc2").toList.mapM misc }
+
+def verdictJson : Verdict → Json
+  | .clean => Json.mkObj [("v", "clean")]
+  | .entity n => Json.mkObj [("v", "entity"), ("name", bytesToString n)]
+  | .unparsed n => Json.mkObj [("v", "unparsed"), ("name", bytesToString n)]
+  | .external => Json.mkObj [("v", "external")]
+  | .malformed => Json.mkObj [("v", "malformed")]
+
+end P
+
+/-! ### build traces -/
+
+def parseKind (s : String) : Except String Kind :=
+  match s with
+  | "main" => pure .main | "include" => pure .incl | "import" => pure .imp | _ => throw "kind"
+
+def parseRes (j : Json) : Except String Res := do
+  pure { id := ← getNat j "id", base := ← parseBase (← getStr j "base"),
+         ch := { seekable := ← getBool j "seekable", io := ← parseIo (← getStr j "io"),
+                 hasOpener := ← getBool j "opener", hasUrl := ← getBool j "url" },
+         mustRefuse := ← getBool j "must_refuse", total := ← getNat j "total", tagEnd := ← getNat j "tag_end" }
+
+/-- a list of sibling nodes (JSON arrays of objects with "children"), fuel = nesting depth bound -/
+def parseForest : Nat → List Json → Except String Forest
+  | 0, _ => throw "forest too deep"
+  | _, [] => pure .nil
+  | fuel + 1, j :: rest => do
+    let r ← parseRes j
+    let k ← parseKind (← getStr j "kind")
+    let c ← parseForest fuel (← getArr j "children").toList
+    let s ← parseForest (fuel + 1) rest
+    pure (.cons r k c s)
+termination_by fuel l => (fuel, l.length)
+
+def evJson : Ev → Json
+  | .opened r => Json.arr #["opened", r.id]
+  | .scanned r => Json.arr #["scanned", r.id]
+  | .parsed r => Json.arr #["parsed", r.id]
+  | .failed r o => Json.arr #["failed", r.id, outcomeStr o]
+
+def statusStr : Status → String
+  | .ok => "ok"
+  | .raised o => outcomeStr o
+
 def handle (j : Json) : Except String Json := do
   let op ← getStr j "op"
   match op with
@@ -66,6 +229,45 @@ def handle (j : Json) : Except String Json := do
     let pl := plan m b ch
     return Json.mkObj [("defused", isDefused m b), ("plan", planStr pl),
       ("outcome", outcomeStr (outcome pl (← getBool j "must_refuse") (← getNat j "scan_end") (← getNat j "buf_len")))]
+  | "doc" =>
+    let m ← parseMode (← getStr j "mode")
+    let b ← parseBase (← getStr j "base")
+    let ch : Chan := { seekable := ← getBool j "seekable", io := ← parseIo (← getStr j "io"),
+                       hasOpener := ← getBool j "opener", hasUrl := ← getBool j "url" }
+    let pl := plan m b ch
+    let total ← getNat j "total"
+    let tagEnd ← getNat j "tag_end"
+    return Json.mkObj [("plan", planStr pl),
+      ("outcome", outcomeStr (outcomeDoc pl (← getBool j "must_refuse") total tagEnd)),
+      ("scan_end", scanEndOf total tagEnd), ("buf_len", bufLenOf total)]
+  | "prolog" =>
+    let p ← P.prolog (← j.getObjVal? "ast")
+    let root := toBytes (← getStr j "root")
+    let bytes := p.render
+    return Json.mkObj [("wf", p.wf), ("hex", toHex bytes), ("len", bytes.length),
+      ("handler", P.verdictJson (XsVerif.Prolog.firstHandler p)),
+      ("classify", P.verdictJson (XsVerif.Prolog.classify (bytes ++ root))),
+      ("must_refuse", XsVerif.Prolog.mustRefuse p), ("regular", XsVerif.Prolog.regular p),
+      ("standalone", p.standalone)]
+  | "classify" =>
+    let bytes ← fromHex (← getStr j "hex")
+    return Json.mkObj [("classify", P.verdictJson (XsVerif.Prolog.classify bytes))]
+  | "witness" =>
+    -- the two named counter-examples of Props/C13.lean, rendered
+    let w := match (← getStr j "name") with
+      | "standalone" => some (⟨false, some ⟨none, some true⟩, [], some ⟨[114], some (.system ⟨.dq, [120]⟩), none⟩, []⟩ : XsVerif.Prolog.Prolog)
+      | "peref" => some ⟨false, none, [], some ⟨[114], none, some [.peRef [112], .entity false [101] (.value ⟨.dq, [118]⟩)]⟩, []⟩
+      | _ => none
+    match w with
+    | none => throw "witness"
+    | some p =>
+      return Json.mkObj [("hex", toHex p.render), ("must_refuse", XsVerif.Prolog.mustRefuse p),
+        ("classify", P.verdictJson (XsVerif.Prolog.classify (p.render ++ [60, 114, 47, 62])))]
+  | "build" =>
+    let m ← parseMode (← getStr j "mode")
+    let f ← parseForest 64 [← j.getObjVal? "root"]
+    let (evs, st) := build m f
+    return Json.mkObj [("events", Json.arr (evs.map evJson).toArray), ("status", statusStr st)]
   | "reader" =>
     let s := synth (← getNat j "len")
     let ops ← (← getArr j "ops").toList.mapM parseOp
